@@ -111,6 +111,7 @@ def gen_script(rng, sc, opts):
     for s in range(nstrat):
         for mi, m in enumerate(sc["markets"]):
             orders = []      # (name, type, placed_at)
+            bursts = []
             nu = len(m["updates"])
             for u in range(nu):
                 upd = m["updates"][u]
@@ -155,6 +156,14 @@ def gen_script(rng, sc, opts):
                             acts.append(["update", name, rng.choice(["PERSIST", "LAPSE", "MARKET_ON_CLOSE"]), {}])
                         else:
                             acts.append(["replace", name, rng.choice(TICKS_BP[2:24]), {"mv": rng.choice([None, None, upd["version"], upd["version"] + 1])}])
+                # bursts: the same order managed again at consecutive updates (partial cancels / re-cancels while one is in flight)
+                for (name, kind, pu, left) in list(bursts):
+                    if kind == "L" and u > pu and left > 0:
+                        acts.append(["cancel", name, rng.choice([50, 100, 200, 300, 400, 500, None]), {}])
+                        bursts[bursts.index((name, kind, pu, left))] = (name, kind, pu, left - 1)
+                for a in acts:
+                    if a[0] == "place" and a[4]["t"] == "L" and rng.random() < opts.get("p_burst", 0.15):
+                        bursts.append((a[1], "L", u, rng.randrange(2, 5)))
                 if acts:
                     script.append({"s": s, "m": mi, "u": u, "acts": acts})
     return script
